@@ -170,7 +170,10 @@ class Interp:
         if isinstance(f, Stub):
             if f.fn is None:
                 raise AnalysisError(f"evaluator: external callable {f.name} has no abstract semantics ({where})")
-            return f.fn(*args, **kwargs)
+            try:
+                return f.fn(*args, **kwargs)
+            except (TypeError, ValueError, KeyError, IndexError, AttributeError) as e:
+                raise AbsRaise(f"{type(e).__name__}: {e}")
         if isinstance(f, Closure):
             return self.call_func(f.func, f.env, args, kwargs, f.bound_self)
         if isinstance(f, ClassVal):
@@ -358,7 +361,10 @@ class Interp:
         elif isinstance(t, ast.Subscript):
             o = self.eval(t.value, env)
             k = self.eval(t.slice, env)
-            o[k] = v
+            try:
+                o[k] = v
+            except (TypeError, KeyError, IndexError) as e:
+                raise AbsRaise(f"{type(e).__name__}: {e}")
         else:
             raise AnalysisError(f"evaluator: assignment target `{norm(t)}`")
 
